@@ -119,7 +119,7 @@ func ParseCSeqVal(buf []byte, offs int, pcs *PCSeqBody) (int, ErrorHdr) {
 				pcs.CSeqNo = uint32(c - '0')
 			case csFoundDigit:
 				v := pcs.CSeqNo*10 + uint32(c-'0')
-				if pcs.CSeqNo > v {
+				if pcs.CSeqNo > (MaxCSeqNValue-uint32(c-'0'))/10 {
 					// overflow
 					return i, ErrHdrNumTooBig
 				}
